@@ -206,6 +206,10 @@ static int real_main(int argc, char** argv)
             std::printf("{\"type\":\"engine_error\",\"index\":%ld,\"msg\":\"%s\"}\n", idx, out.engine_error.c_str());
             continue;
         }
+        if (const char* thr = std::getenv("SIM_REPORT_RATIO"))
+            for (auto& kv : out.stats.mx)
+                if (kv.first.compare(0, 6, "ratio.") == 0 && kv.first.find("tolterm") == std::string::npos && kv.second > std::atof(thr))
+                    std::printf("{\"type\":\"bigratio\",\"index\":%ld,\"key\":\"%s\",\"value\":%.3g,\"plan\":%s}\n", idx, kv.first.c_str(), kv.second, p.to_json().dump().c_str());
         total.merge(out.stats);
         if (out.nontrivial)
         {
